@@ -313,3 +313,18 @@ func (a *An) WhoMayWriteDirect(rule string, target *types.Var, allowed ...string
 			fn+" writes "+target.Name()+" but is not one of the designated writers")
 	}
 }
+
+// walkWithHelpers visits the instructions of f in block order; the body of a new single-use helper is visited at the
+// place of its call (at most three levels).
+func (a *An) walkWithHelpers(f *ssa.Function, depth int, visit func(ssa.Instruction)) {
+	for _, b := range f.Blocks {
+		for _, in := range b.Instrs {
+			visit(in)
+			if call, ok := in.(ssa.CallInstruction); ok && depth < 3 {
+				if g := call.Common().StaticCallee(); g != nil && g != f && g.Blocks != nil && a.C.isNew(g) && a.C.soleCall(g) == call {
+					a.walkWithHelpers(g, depth+1, visit)
+				}
+			}
+		}
+	}
+}
